@@ -17,4 +17,8 @@ CHECKS = {
         technique="property-based testing: exhaustive 8-bit pair / 16-bit single sweeps and Hypothesis boundary-biased 32-bit operands against a gemmlowp reference on Python ints; generated table parameters against mpmath (100-bit) and ports of the TFLite integer kernels",
         text="fp_math helpers are called with every operand type production uses (Python int, np.int8/16/32/64) and compared bit for bit with a Python-int gemmlowp reference (any exception or NumPy overflow warning is a violation); sigmoid/tanh/exp/sqrt/gelu tables against a correctly rounded mpmath value, leaky-relu and hard-swish tables against ports of the TFLite kernels, optimise_quantize constants against TFLite Requantize.",
         note="trusted base: lib/tflref.py + the gemmlowp/TFLite ports in lib/props/c19.py, mpmath"),
+    "C07": dict(
+        technique="property-based testing + coverage-guided fuzzing: exhaustive short sequences, Hypothesis per-coding-mode streams and OHWI volumes round-tripped through a pinned reference decoder and an independent traversal model; libFuzzer with ASan/UBSan on the C encoder with the round-trip oracle inside the target",
+        text="The codec extension is rebuilt from the working tree for every run. encode()/npu_encode_weights() outputs are decoded by a pinned copy of the reference decoder and must equal the source weights in the hardware block-traversal order computed by an independent NumPy model, padded only with zeros, length % 16 == 0; out-of-range weights must raise; a libFuzzer target links the repository's mlw_encode.c with sanitizers (with and without NDEBUG).",
+        note="trusted base: vendor/mlw_decode.c (pinned reference decoder), lib/wref.py traversal model, clang sanitizers"),
 }
